@@ -30,15 +30,15 @@ ALL = {
  'C16': (E2, T_E2, 'All arrays of length 0..4/6 with every index in [-8,8]/[-30,30] through [k], ![k], [[/k]] on json/yaml/jsonl, index pairs, and maps; element or clean error, never a panic report.', 'case-variant map keys not asserted'),
  'C17': (E2, T_E2, 'All lists of 0..6/10 items with all start/end in a window and the e flag through the range filter; compared with a slice model where the statement defines the result, otherwise clean exit/error and in-order subsequence.', 'forms outside the statement only get the universal clauses'),
  'C18': (E2, T_E2, 'All integer pairs in [-12,12]^2 / [-200,200]^2, zero-padded spellings and multi-block parameters through a and ja; compared with a reference generator.', 'block sizes <=3'),
- 'C19': (E2, T_E2, 'All programs of an allow-listed builtin with arity <=1/2 from an adversarial argument alphabet, as function and method over 4 stdin shapes; must return control, report errors with non-zero exit, never print a panic report.', 'allow-list of non-interactive builtins; hang judged from process state'),
+ 'C19': (E2, T_E2, 'All programs of an allow-listed builtin with arity <=1/2 from an adversarial argument alphabet, as function and method over 4 stdin shapes; must return control, report errors with non-zero exit, never print a panic report; plus all sequences of <=3/4 named-pipe operations (create, close, failing create, write through the registry) and six temporary-pipe redirections in a child murex process, which must reach the end of the program.', 'allow-list of non-interactive builtins; hang judged from process state (in-process: scheduler/rusage idle; child: every thread asleep with no CPU time for 25 s, or more than 60 s of own CPU time), never from wall-clock alone'),
  'C20': (E2, T_E2, 'Every string up to the stated length over the murex token alphabet through ParseBlock and the highlighter tokenizer; a panic or a non-terminating input is reported.', 'alphabet (31 runes / 16-rune core / 38 tokens) and length bounds'),
  'C21': (E2, T_E2, 'ALL exit codes 0-255 and all terminating signals of a helper process, alone, with && and || and inside try; exit number and control flow compared with the statement.', 'finite space enumerated completely'),
  'C22': (E2, T_E2, 'Every subset of {private, alias, function, builtin, external} defined for one name x alias targets x call contexts; the marker printed must be that of the highest-precedence definition, alias expanded once.', 'finite space enumerated completely'),
  'C23': (E2, T_E2, 'All signatures of <=2/3 parameters from the documented grammar x argument lists, binding compared with a model; all strings up to length 6/8 over a 9-rune alphabet through the signature parser (accepts exactly the grammar, no panic).', 'missing mandatory parameters are not generated (murex prompts on the terminal)'),
  'C24': (E2, T_E2, 'All 32 well-formed flag tables x all argument lists of <=4/5 tokens through ParseFlags against a reference parser, and through the args builtin.', 'ill-formed lists only get the no-panic clause'),
- 'C25': (E3, T_E3, 'All programs of config set/get/default operations over a global and a non-global option at call depths <=2; every get compared with a scope model.', 'two values per option'),
+ 'C25': (E3, T_E3, 'All programs of config set/get/default operations over a global and a non-global option at call depths <=2; every get compared with a scope model; BFS with state merging to a fixpoint PLUS every history of <=5/6 write/call/return operations run without any state merging.', 'two values per option plus the declared default'),
  'C26': (E1, T_E1, 'Every operation sequence of length <=3/4 over create/close/delete/get/dump on 2 names, and every pair of <=2-operation sequences from two threads, interleaved in all ways (<=2 preemptions) with the asynchronous close timers; no panic, no deadlock, results explained by a linearizable registry model.', 'grace period and retry sleeps modelled as yields, not durations'),
- 'C27': (E3, T_E3 + '; plus stateless DFS over interleavings of concurrent table operations under the controlled scheduler', 'BFS to a fixpoint over add/terminate/garbage-collect/lookup histories on the real job table with <=10/12 jobs, every lookup compared with the model of the statement; plus all interleavings (<=2 preemptions) of two scopes running add / garbage-collect / finish-then-collect on the real table: at quiescence jobs lists exactly the running jobs under their original ids.', 'synthetic Process values; concurrent part: two scopes, <=2 operations each'),
+ 'C27': (E3, T_E3 + '; plus stateless DFS over interleavings of concurrent table operations under the controlled scheduler', 'BFS to a fixpoint over add/terminate/garbage-collect/lookup histories on the real job table with <=10/12 jobs, every lookup compared with the model of the statement; plus every history of <=7/9 mutating operations with <=4 jobs run without state merging; plus all interleavings (<=2 preemptions) of two scopes running add / garbage-collect / finish-then-collect on the real table: at quiescence jobs lists exactly the running jobs under their original ids.', 'synthetic Process values; concurrent part: two scopes, <=2 operations each'),
  'C28': (E1, T_E1, 'Two session threads run one program each through the whole interpreter; all schedules within the deviation bound; a monitor at every scheduling point checks FID uniqueness, and at quiescence the FID table must be back to its baseline.', 'preemptions only at shared-visible operations; bound 1 quick / 2 thorough'),
  'C29': (E4, T_E4, 'All histories of <=2x2 / 3x3 commands over a block alphabet (multi-line, unicode, 70 KiB, 200 KiB); the file is truncated at EVERY byte of the last write (sampled offsets for the long entries), further sessions append, reload must give every acknowledged entry except possibly the torn one.', 'crash model = torn single append (prefix); murex never fsyncs so power-loss models are out of scope'),
  'C30': (E3, T_E3, 'BFS over write/read/trim/clear histories on namespaces x keys x values x TTL classes of the real cache (memory + sqlite); every read compared with the model.', 'real clock: TTLs kept >=30 min from now, expiry during a history is outside the bound'),
